@@ -192,6 +192,43 @@ def rule_g(F):
     return out
 
 
+def rule_i(F):
+    """no iterator over (or reference into) the input table is alive across a callback: in the natives every loop that
+    calls run_function iterates over an owned copy of the rows. The key function is a script; it can reach the same table
+    through a global or a captured variable and change it, which reallocates the storage such an iterator points into."""
+    from cao.facts import hir_walk, hir_callee, hir_strip
+    from cao import hirutil as hu
+    from cao import scoping as sc
+    res = []
+    n = 0
+    for name in ("stdlib::native_minmax", "stdlib::native_sorted"):
+        f = F.fn(name)
+        k = 0
+        for s_ in sc.searches(f):
+            if s_["kind"] != "for":
+                continue
+            if not any(y.get("k") == "mcall" and any(c.endswith("Vm::run_function") for c in hir_callee(y)) for y in hir_walk(s_["node"])):
+                continue
+            n += 1
+            key = "C09/I/%s/callback-loop-iterates-a-copy%s" % (f.name, "" if k == 0 else "#%d" % k)
+            k += 1
+            # the iterated expression (before iter/enumerate/skip adapters)
+            scrut = hir_strip(s_["node"]["scrut"])
+            it = hu.strip_casts(scrut["args"][0]) if scrut.get("k") == "call" and scrut["args"] else scrut
+            borrowed = [y for y in hir_walk(it) if y.get("k") == "mcall" and y["name"] in ("iter", "iter_mut", "keys", "keys_mut")
+                        and any("cao_lang_table::CaoLangTable::" in c or "hash_map::CaoHashMap::" in c for c in hir_callee(y))]
+            if borrowed:
+                res.append(bad("C09.I", key, f.loc(s_["ln"]),
+                               "%s calls the script key function inside a loop over `%s` of the input table: a key function that changes the "
+                               "table (through a global or captured variable) reallocates its key list / hash part, the iterator and the "
+                               "references taken from it then point into freed storage" % (f.name, borrowed[0]["name"])))
+            else:
+                res.append(ok("C09.I", key, f.loc(s_["ln"]), "the loop that calls back iterates over an owned copy of the rows"))
+    if n < 2:
+        raise AnchorMissing("loops calling run_function in the natives (found %d)" % n)
+    return res
+
+
 def rule_s(F):
     """sorted / sorted_by_key order by the language's own ordering and stably: the comparator handed to the sort is
     `<Value as PartialOrd>::partial_cmp` applied to the two keys as they are (no conversion in between), the sort is one
@@ -335,6 +372,7 @@ def rule_f(F):
 RULES = [
     Rule("C09.T", rule_t, 16, "native names, arities, polarity and exports are wired consistently"),
     Rule("C09.N", rule_n, 3, "natives do not mutate their input table"),
+    Rule("C09.I", rule_i, 2, "no iterator over the input table is alive across a callback"),
     Rule("C09.S", rule_s, 1, "sorted orders by the language ordering, stably, ascending"),
     Rule("C09.F", rule_f, 1, "ties are resolved in favour of the first row"),
     Rule("C09.G", rule_g, 2, "rooting hazards inside the natives (shared with C02.R)"),
